@@ -92,6 +92,13 @@ def check_stream(notes, columns):
     again = n.NoteData.from_notes(back, columns)
     if str(again) != text:
         return "re-encoding its own notes changes the text"
+    # the notes handed over as a one-shot iterator (from_notes takes any Iterable[Note]) and straight from a decoder
+    try:
+        lazy = str(n.NoteData.from_notes(iter(list(notes)), columns)), str(n.NoteData.from_notes((x for x in nd), columns))
+    except Exception as e:
+        return f"from_notes on a one-shot iterator raised {type(e).__name__}: {e}"
+    if lazy != (text, text):
+        return f"from_notes gives {lazy[0]!r} / {lazy[1]!r} for a one-shot iterator over the notes and {text!r} for the list"
     return None
 
 
